@@ -80,12 +80,13 @@ Record pflags := { f_snake : bool; f_trim : bool; f_reserved : bool }.
 
 Definition suffix_if (b : bool) (n : chars) : chars := if b then n ++ ["_"%char] else n.
 
-(* process_name without a plugin manager, step for step *)
+(* process_name without a plugin manager, step for step
+   (order after the fix "trim the leading underscore before the keyword / reserved checks") *)
 Definition process_name_with (reserved : list chars) (fl : pflags) (name : chars) : chars :=
   let p1 := if f_snake fl then snake name else name in
-  let p2 := suffix_if (iskeyword p1) p1 in
-  let p3 := suffix_if (f_reserved fl && mem_chars p2 reserved) p2 in
-  let p4 := if f_trim fl then drop_while is_us p3 else p3 in
+  let p2 := if f_trim fl then drop_while is_us p1 else p1 in
+  let p3 := suffix_if (iskeyword p2) p2 in
+  let p4 := suffix_if (f_reserved fl && mem_chars p3 reserved) p3 in
   match name, p4 with
   | _ :: _, [] => if all_us name then fallback_name else p4
   | _, _ => p4
@@ -112,13 +113,9 @@ Fixpoint first_alnum_is_digit (n : chars) : bool :=
 Definition starts_us (n : chars) : bool := match n with c :: _ => is_us c | [] => false end.
 
 (* the class of names on which process_name is known to misbehave (finding F18):
-   - snake-casing or trimming exposes a leading digit (_1 -> 1)
-   - without snake-casing, trimming happens after the keyword/reserved suffixing
-     (_class -> class, _copy -> copy) *)
+   snake-casing or trimming exposes a leading digit (_1 -> 1) *)
 Definition g_c18 (fl : pflags) (n : chars) : bool :=
-  if f_snake fl then negb (first_alnum_is_digit n)
-  else if f_trim fl then negb (starts_us n) || all_us n
-  else true.
+  if f_snake fl || f_trim fl then negb (first_alnum_is_digit n) else true.
 
 (* ---- the name a generated class field gets, with its wire alias ---- *)
 Definition field_names (fl : pflags) (n : chars) : chars * option chars :=
@@ -128,6 +125,9 @@ Definition field_names (fl : pflags) (n : chars) : chars * option chars :=
 (* wire name of a declared field: the alias when present, the Python name otherwise *)
 Definition wire_name (d : chars * option chars) : chars :=
   match snd d with Some a => a | None => fst d end.
+
+(* ---- enums.py: the member name of an enum value (keyword suffix only; no trimming, no snake-casing) ---- *)
+Definition enum_member (v : chars) : chars := suffix_if (iskeyword v) v.
 
 (* ---- sexp interface ---- *)
 Local Open Scope string_scope.
@@ -160,6 +160,7 @@ Definition run_names (e : sexp) : sexp :=
       match dFlags fl with
       | Some f => sB (g_c18 f (s2l s))
       | None => sErr "flags" end
+  | L [A "enum_member"; A s] => A (l2s (enum_member (s2l s)))
   | L [A "kwlist"] => L (map (fun k => A (l2s k)) kwlist)
   | L [A "reserved"] => L (map (fun k => A (l2s k)) pydantic_reserved)
   | _ => sErr "names: bad command"
